@@ -402,18 +402,19 @@ def runOp : P String := do
     let n ← pNat
     let vs ← pMany n pFloat
     pure ("OK " ++ " ".intercalate ((rankDataCode vs).map toString))
-  | "PWIN" =>
+  | "PWIN" | "PWINLOOP" =>
+    -- …LOOP: the same query through the LITERAL statement-by-statement transliteration (OSModel/PredictLoops.lean)
     let beta ← pFloat
     let teams ← pTeams
-    pure ("OK " ++ " ".intercalate ((predictWin beta teams).map toHex))
-  | "PDRAW" =>
+    pure ("OK " ++ " ".intercalate ((if op == "PWINLOOP" then predictWinLoop beta teams else predictWin beta teams).map toHex))
+  | "PDRAW" | "PDRAWLOOP" =>
     let beta ← pFloat
     let teams ← pTeams
-    pure ("OK " ++ toHex (predictDraw beta teams))
-  | "PRANK" =>
+    pure ("OK " ++ toHex (if op == "PDRAWLOOP" then predictDrawLoop beta teams else predictDraw beta teams))
+  | "PRANK" | "PRANKLOOP" =>
     let beta ← pFloat
     let teams ← pTeams
-    pure ("OK " ++ " ".intercalate ((predictRank beta teams).map (fun x => s!"{x.1}:{toHex x.2}")))
+    pure ("OK " ++ " ".intercalate ((if op == "PRANKLOOP" then predictRankLoop beta teams else predictRank beta teams).map (fun x => s!"{x.1}:{toHex x.2}")))
   | "LEAF" =>
     let fn ← tok
     let x ← pFloat
